@@ -322,6 +322,77 @@ def overflow_req(T, op, a, b):
     return []
 
 
+# ---------------------------------------------------------------------------
+# stream output (ghost ostream model)
+# ---------------------------------------------------------------------------
+OS_OPAQUE = [(r"ostream", "struct cxx2c_ostream"), (r"^std::_Setw$", "struct cxx2c_setw"), (r"^std::ios_base$|basic_ios<char", "struct cxx2c_ostream")]
+OS_EXTERN = [(r"operator<<.*\(.*ostream.*&, char\)$", "cxx2c_os_char"), (r"operator<<.*\(.*ostream.*&, const char \*\)$", "cxx2c_os_str"),
+             (r"ostream<char.*>::operator<<\(float\)$", "cxx2c_os_float"), (r"ostream<char.*>::operator<<\(double\)$", "cxx2c_os_double"),
+             (r"ostream<char.*>::operator<<\((int|long|short|unsigned int|unsigned long)\)$", "cxx2c_os_long"),
+             (r"^std::setw\(int\)$", "cxx2c_setw_make"), (r"operator<<.*\(.*ostream.*&, std::_Setw\)$", "cxx2c_os_setw"),
+             (r"ios_base::flags\(\)", "cxx2c_ios_flags"), (r"ios_base::flags\(std::(_Ios_Fmtflags|ios_base::fmtflags)\)", "cxx2c_ios_setflags"),
+             (r"ios_base::setf\(", "cxx2c_ios_setf"), (r"ios_base::precision\(\)", "cxx2c_ios_precision")]
+STREAM_QUICK = [("Vec2", "float"), ("Vec3", "float"), ("Vec3", "int"), ("Vec4", "double"), ("Color4", "float"), ("Shear6", "float"), ("Shear6", "double"), ("Quat", "float"),
+                ("Matrix22", "float"), ("Matrix33", "double"), ("Matrix44", "float")]
+STREAM_ALL = STREAM_QUICK + [("Vec2", "double"), ("Vec2", "int"), ("Vec2", "short"), ("Vec3", "double"), ("Vec3", "short"), ("Vec3", "long"), ("Vec4", "float"), ("Vec4", "int"),
+                             ("Quat", "double"), ("Matrix22", "double"), ("Matrix33", "float"), ("Matrix44", "double")]
+
+
+def stream_units(tier):
+    pairs = STREAM_QUICK if tier == "quick" else STREAM_ALL
+    hdrs = sorted({HDR[K] for K, T in pairs})
+    drv = "".join('#include "%s"\n' % h for h in hdrs) + "#include <iostream>\n#include <cstdint>\nusing namespace IMATH_INTERNAL_NAMESPACE;\n"
+    for n, (K, T) in enumerate(pairs):
+        drv += "void use_s%d (std::ostream &s, %s<%s> &v) { s << v; }\n" % (n, K, T)
+    wanted = ["operator<<<%s>(std::ostream &, const %s<%s> &)" % (T, K, T) for K, T in pairs]
+    ex = extract.run_extraction("c04_stream_" + tier, drv, wanted, outdir=GEN, diff=False, opaque_patterns=OS_OPAQUE, extern_patterns=OS_EXTERN)
+    EXTRACTION[ex.name] = {"functions": len(ex.order), "differential": "not run: the real functions write to a std::ostream; the ghost log replaces it"}
+    L = ['/* GENERATED by vf/props/c04.py: stream-output contracts over the ghost ostream log */', '#include "vf.h"', '#include "%s"' % os.path.basename(ex.c_path), '#include "c04_stream.h"', ""]
+    us = []
+    for K, T in pairs:
+        f = ex.names["operator<<<%s>(std::ostream &, const %s<%s> &)" % (T, K, T)]
+        S = "struct " + cid(K, T)
+        slots = SLOTS[K]
+        ct = CT[T]
+        tag = "os_" + cid(K, T)
+        ncomp = len(slots)
+        mat = K.startswith("Matrix")
+        rowlen = int(K[-1]) if mat else ncomp
+        kind = {"float": "CXX2C_TOK_F32", "double": "CXX2C_TOK_F64"}.get(T, "CXX2C_TOK_INT")
+        raw = {"float": "vf_f2u (%s)", "double": "vf_d2u (%s)"}.get(T, "(unsigned long) (long) (%s)")
+        L.append("static inline _Bool spec_%s (struct cxx2c_ostream os, %s v)\n{\n    unsigned long e[%d] = { %s };\n    return spec_stream_ok (&os, %s, e, %d, %d, %d);\n}" % (
+            tag, S, ncomp, ", ".join(raw % ("v." + sl) for sl in slots), kind, ncomp, rowlen, 0 if mat else 1))
+        L.append("struct cxx2c_ostream *%s (struct cxx2c_ostream *s, %s *v)" % (f, S))
+        L.append("    __CPROVER_requires (__CPROVER_rw_ok (s, sizeof (*s)) && __CPROVER_r_ok (v, sizeof (*v)) && s->n == 0)")
+        L.append("    __CPROVER_assigns (*s)")
+        L.append("    __CPROVER_ensures (spec_%s (*s, *v))" % tag)
+        L.append("    __CPROVER_ensures (__CPROVER_return_value == s);")
+        L.append("void h_%s (void)\n{" % tag)
+        for i, sl in enumerate(slots):
+            L.append("    VF_IN (%s, in_a%d);" % (ct, i))
+        L.append("    %s a; memset (&a, 0, sizeof a);" % S)
+        for i, sl in enumerate(slots):
+            L.append("    a.%s = in_a%d;" % (sl, i))
+        L.append("    struct cxx2c_ostream os; memset (&os, 0, sizeof os);")
+        L.append("    struct cxx2c_ostream *r = %s (&os, &a); (void) r;" % f)
+        L.append("    VF_END ();\n}")
+        for flagcase in ((("fixed", 4), ("scientific", 0)) if mat else ((None, None),)):
+          us.append(Unit("c04.stream.%s%s" % (cid(K, T), ("." + flagcase[0]) if flagcase[0] else ""), None, "h_" + tag, enforce=[f], backend="sat", mode="BIT", includes=[GEN],
+                       defines=["CXX2C_IOS_FLAGS_VALUE=%d" % flagcase[1]] if mat else [], functions=["operator<<(std::ostream &, const %s<%s> &)" % (K, T)],
+                       clause="operator<< for %s<%s>: '(' components in declaration order, separated by white space (%s), ')' - one token per component" % (K, T, "one row per line" if mat else "single spaces"),
+                       no_checks=True, cbmc_flags=["--unwind", "100", "--no-signed-overflow-check", "--object-bits", "10", "--max-field-sensitivity-array-size", "128"], timeout=300,
+                       replay={"src": os.path.join(VERIF, "harness", "c04_stream_replay.cpp"), "lang": "c++",
+                               "flags": ["-DVF_TYPE=%s<%s>" % (K, T), "-DVF_ELEM=%s" % T, "-DVF_N=%d" % ncomp]},
+                       assumptions=["std::ostream is a ghost log of insertions (characters, element values, setw); what libstdc++ prints for one element is its 'own printed form' by definition"]))
+    path = os.path.join(GEN, "c04_streamh_%s.c" % tier)
+    txt = "\n".join(L)
+    if not os.path.exists(path) or open(path).read() != txt:
+        open(path, "w").write(txt)
+    for u in us:
+        u.src = path
+    return us
+
+
 FAMILIES = {
     "vec": ["Vec2", "Vec3", "Vec4"],
     "col": ["Color3", "Color4", "Shear6", "Quat"],
@@ -388,15 +459,16 @@ def units(tier):
                                    cbmc_flags=["--unwind", "8", "--unwinding-assertions"],
                                    no_checks=True, timeout=300,
                                    replay={"src": path, "lang": "c", "cxx": [ex.shim_cpp], "includes": [GEN] + ex.includes}))
+    us_stream = stream_units(tier)
     for u in us:
         # cbmc 6 enables its standard checks by default; signed overflow in + - * and negation is
         # outside the property (proved under wrap-around semantics, see ASSUMPTIONS)
         u.cbmc_flags += ["--no-signed-overflow-check"]
-    return us
+    return us + us_stream
 
 
 NOT_COVERED = [
-    "operator<< token layout (iostream formatting is outside the verifier)",
+    "operator<<: the token STRUCTURE is decided on a ghost stream log; the characters libstdc++ produces for one element (float formatting) are outside the verifier",
     "half element type (arithmetic through half operators: see C03)",
     "operator[], getValue/setValue, converting and interop constructors, layout static facts: not yet under contract in this revision",
 ]
